@@ -334,6 +334,13 @@ def _bsum(ex, st, args, kwargs, node):
     return _sum(ex, st, args, kwargs, node)
 
 
+@model('numpy.nansum')
+def _nansum(ex, st, args, kwargs, node):
+    """assumed: nansum = sum on arrays without NaN (reals are never NaN: float = real); what nansum does with NaN
+    entries is outside the proof and covered by bounded items where a property depends on it"""
+    return _sum(ex, st, args, kwargs, node)
+
+
 @model('numpy.sum', '.sum')
 def _sum(ex, st, args, kwargs, node):
     v = args[0]
@@ -807,6 +814,8 @@ def _list(ex, st, args, kwargs, node):
 def _dict(ex, st, args, kwargs, node):
     if not args:
         return st.alloc(ex.c, PyDict(dict(kwargs)))
+    if len(args) == 1 and isinstance(args[0], Ref) and isinstance(st.get(args[0]), PyDict) and not kwargs:
+        return st.alloc(ex.c, PyDict(dict(st.get(args[0]).items)))       # shallow copy
     raise Unsupported('dict(...)')
 
 
@@ -923,6 +932,9 @@ def dict_method(ex, st, ref, name, args, kwargs, node):
 
 def str_method(ex, st, s, name, args, kwargs, node):
     if name in ('format',):
+        if all(isinstance(a, (str, int, float)) and not isinstance(a, bool) for a in args) and \
+                all(isinstance(a, (str, int, float)) for a in kwargs.values()):
+            return s.format(*args, **kwargs)
         return '<fmt>'
     if name in ('lower', 'upper', 'strip'):
         return getattr(s, name)()
